@@ -240,8 +240,11 @@ def d4_interval_indexing(ctx):
     for st in rk:
         lits = literals(N.conj(astx.path_condition(f.node, st, pm)))
         v = astx.u(st.value)
-        lt = literals(spec_guard("i < num_cross_ballots", int_atoms=lambda a: True))
-        ge = literals(spec_guard("i >= num_cross_ballots", int_atoms=lambda a: True))
+        # the ballot counter is the variable of the loop that builds the ballots, whatever it is called
+        blp = astx.enclosing(st, pm, ast.For)
+        iv = blp.target.id if blp is not None and isinstance(blp.target, ast.Name) else "i"
+        lt = literals(spec_guard(f"{iv} < num_cross_ballots", int_atoms=lambda a: True))
+        ge = literals(spec_guard(f"{iv} >= num_cross_ballots", int_atoms=lambda a: True))
         if lt <= lits:
             m = re.search(r"zip\((\w+), (\w+)\)", v)
             cross = bool(m) and m.group(1).startswith("opposing") and m.group(2).startswith("bloc")
